@@ -1136,6 +1136,19 @@ fn run_truncate(
             continue;
         }
         let t_errs = oracle::error_msgs(&r.stderr);
+        // whatever is reported about the incomplete final packet is reported at a position that exists: inside
+        // what was read of the input (C07's clause, on the inputs of this property)
+        // (the reader's own [E100] / [E101] name the position at which the packet they could not read would have
+        // ended - the next RDH's position; the repository's test `check_sanity_issue45` pins that)
+        let reader_side = |e: &oracle::ErrMsg| e.codes.first().map_or(false, |c| c == "E100" || c == "E101");
+        if let Some(e) = t_errs.iter().find(|e| !e.text.starts_with("FATAL") && !reader_side(e) && e.offset.map_or(false, |o| o >= k.max(1))) {
+            out.fail = Some(tag(Fail::new(
+                "truncation",
+                "message-offset-beyond-the-end-of-input",
+                format!("a message names an offset at or beyond the end of the input ({k:#X}): {}", clip(&e.text)),
+            )));
+            return out;
+        }
         let before = |e: &oracle::ErrMsg| -> bool {
             match e.offset {
                 Some(o) => o < boundary && quoted_end(&e.text).map_or(true, |q| q < boundary),
